@@ -4,7 +4,8 @@
     (ImplSimProofs.v: [impl_any_schedule_eq_ref]).
 
       ARun i    in program order, after ALinks (i-1)
-      ALinks i  in program order, after ARun i
+      ALinkOne i  single link applications of iteration i: after ARun i, before ALinks i
+      ALinks i  (the rest of the link loop) in program order, after ARun i
       AWrite g  generations are written in order, each once, after ARun g
       APurge g  only when g has been written and its outgoing links applied
                 (any number of times: every put-back of the token purges again) *)
@@ -30,6 +31,8 @@ Section Sched.
         if (i =? sc_ran c) && (sc_ran c =? sc_linked c) && (i <? G)
         then Some {| sc_ran := S (sc_ran c); sc_linked := sc_linked c; sc_written := sc_written c |}
         else None
+    | ALinkOne i =>
+        if (i =? sc_linked c) && (sc_ran c =? S (sc_linked c)) then Some c else None
     | ALinks i =>
         if (i =? sc_linked c) && (sc_ran c =? S (sc_linked c))
         then Some {| sc_ran := sc_ran c; sc_linked := S (sc_linked c); sc_written := sc_written c |}
